@@ -125,7 +125,10 @@ func VerifC01_step_feedback() {
 	before := vSumAssume(e.sumActual()...)
 	switch vChoose("fn", 2) {
 	case 0:
+		pendingBefore := len(e.fb)
 		e.d.getLimitedFeedback()
+		// progress: a release that has arrived is taken into account by the next poll (not left waiting for company)
+		vAssert(vOr(pendingBefore == 0, len(e.fb) < pendingBefore), "C06: between rounds at least one pending release is consumed whenever one is pending")
 	case 1:
 		if len(e.fb) == 0 {
 			vAssume(false)
